@@ -149,6 +149,7 @@ Definition s_gev (p : N * gev) : sexp :=
   | GRefresh st a k ttl => L [A (fst p); A 3; s_store_id st; A a; s_key k; A ttl]
   | GExpire st a k => L [A (fst p); A 4; s_store_id st; A a; s_key k]
   | GMulti l => L [A (fst p); A 5; A l]
+  | GDupSub ep => L [A (fst p); A 6; A ep]
   end.
 Definition s_glog (w : world) : sexp := slist s_gev (rev (glog w)).
 
